@@ -13,6 +13,14 @@ NOTES = {
     'C19-B2-dict-key-doc-memo-ignores-type': 'MISSED by C19 as first built (no str/bytes-subclass dict keys equal to plain keys); caught after adding equal keys of different types to the corpus',
     'C16-A2-colored-rstrip-separator-only': 'MISSED by C16 as first built (no comment text with trailing/lone tabs); caught after adding tab / vertical-tab / NBSP templates to the comment generator',
     'C17-B2-dataclass-classvar-pseudo-fields': 'MISSED by C17 as first built (no ClassVar pseudo-fields); caught after generating dataclasses with ClassVar attributes that are changed after class creation',
+    'C07-A3-namedtuple-fields-named-fn-ctx': 'MISSED by C07 as built then (no namedtuple field / attribute names colliding with the package\'s own parameter names); caught after adding such names to namedtuples, namespaces, partial keywords, kwargs and dataclass fields - which also exposed a genuine defect of the dataclasses extra (fixed)',
+    'C05-B3-lookahead-truncated-to-32-entries': 'MISSED by C05 as built then (random terms never leave more than ~30 pending documents after a group); caught after adding long-tail / deep-closing document families',
+    'C12-A3-sole-non-container-argument-rendered-twice': 'MISSED by C12 as built then (no call nested as the sole positional non-container argument of a call); caught after adding every call shape (sole arg, several args, kwargs only) as wrappers',
+    'C13-B3-no-visit-bookkeeping-for-predicate-printers': 'MISSED by C13 as built then (no cycle through an object printed by a predicate-registered printer or the dataclasses extra); caught after adding such node kinds',
+    'C01-A3-tuple-key-compare-skips-by-identity': 'MISSED by C01 as built then (tuple keys never shared an equal but non-identical leading member); caught after adding the key-sorting family over small key domains',
+    'C10-B3-call-argument-context-loses-max-seq-len': 'MISSED by C10 as built then (no container inside a namedtuple field / defaultdict argument); caught after adding call-style holders to the shapes',
+    'C15-A3-deferred-lookup-skips-builtins-supertypes': 'MISSED by C15 as built then (all lattice classes lived in one ordinary module); caught after letting lattice roots claim the module builtins / __main__',
+    'C06-B3-all-str-elements-exact-length-shortcut': 'MISSED by C06 as built then (no sequences of elements printed through the repr fallback); caught after adding Decimal/Fraction/complex/range/... elements to the one-line values',
 }
 for name, note in NOTES.items():
     p = os.path.join(HOME, 'seeded', name, 'meta.json')
